@@ -1139,6 +1139,18 @@ def ref_rewire(ctx: Ctx) -> RuleResult:
     loops = [n for n in iter_own_nodes(f.node) if isinstance(n, ast.For) and isinstance(n.iter, ast.Call) and dotted(n.iter.func) == "zip"
              and olds and any(isinstance(t, ast.Name) and t.id in olds for t in ast.walk(n.target))]
     r.ob(len(loops) == 1, {"old/new ids paired by": norm_src(loops[0].iter) if loops else None})
+    # the rewired reference points at the new id paired with that old id, and keeps the key path of the reference it replaces
+    if len(loops) == 1 and isinstance(loops[0].target, ast.Tuple) and len(loops[0].target.elts) == 2:
+        names = [dotted(x) for x in loops[0].target.elts]
+        new_var = next((x for x in names if x not in olds), None)
+        for fld, n, tests, new_id in sites:
+            okn = new_id is not None and dotted(new_id) == new_var
+            r.ob(okn, {"field": fld, "rewired to": norm_src(new_id) if new_id is not None else None, "new id of the pair": new_var})
+            if not okn:
+                r.violate(f"BaseDAG.compose: '{fld}' is rewired to '{norm_src(new_id) if new_id is not None else '?'}', not to the new id "
+                          f"paired with the replaced input ('{new_var}')", f.loc(n),
+                          "the reference keeps pointing at an id the composed DAG does not hold (or at another input): the node reads "
+                          "None / the wrong argument", norm_src(n))
     return r
 
 
@@ -1248,7 +1260,125 @@ def ref_stableid(ctx: Ctx) -> RuleResult:
     return r
 
 
+def _innermost_stmt(fn: ast.AST, node: ast.AST) -> Optional[ast.stmt]:
+    best = None
+    for st in ast.walk(fn):
+        if isinstance(st, ast.stmt) and st is not fn and any(x is node for x in ast.walk(st)):
+            if best is None or any(x is st for x in ast.walk(best)):
+                best = st
+    return best
+
+
+def ref_samenode(ctx: Ctx) -> RuleResult:
+    """Splice: every field value of a rebuilt inner node is read from THE node being rebuilt (the one its field dictionary was taken from)."""
+    r = RuleResult("REF-SAMENODE")
+    sp = _splice(ctx)
+    f = sp.fn
+    rebuilt = [n for n in iter_own_nodes(f.node) if isinstance(n, ast.Assign) and isinstance(n.value, ast.Call)
+               and (dotted(n.value.func) or "").endswith("asdict") and any(n is x for x in ast.walk(sp.block)) and n.value.args]
+    r.require(len(rebuilt) == 1, "splice: the field dictionary of the rebuilt node (asdict) not found")
+    vals = dotted(rebuilt[0].targets[0])
+    subj = dotted(rebuilt[0].value.args[0])
+    r.require(bool(vals and subj), "splice: asdict subject is not a name")
+    # the loop body that rebuilds one node
+    loop = None
+    for n in own_walk(sp.block):
+        if isinstance(n, (ast.While, ast.For)) and any(x is rebuilt[0] for x in ast.walk(n)):
+            loop = n
+    r.require(loop is not None, "splice: rebuild loop not found")
+    n_reads = 0
+    for n in own_walk(loop):
+        e = None
+        if isinstance(n, ast.Attribute) and isinstance(n.value, ast.Name) and n.value.id != subj and is_xn(ctx, ctx.type_of(f, n.value)):
+            e = n
+        elif isinstance(n, ast.Call) and dotted(n.func) == "type" and len(n.args) == 1 and isinstance(n.args[0], ast.Name) \
+                and n.args[0].id != subj and is_xn(ctx, ctx.type_of(f, n.args[0])):
+            e = n
+        if isinstance(n, ast.Attribute) and isinstance(n.value, ast.Name) and n.value.id == subj:
+            n_reads += 1
+        if e is None:
+            continue
+        other = e.value.id if isinstance(e, ast.Attribute) else e.args[0].id
+        r.ob(False, {"reads": norm_src(e), "node being rebuilt": subj})
+        r.violate(f"{f.short} splice: the rebuilt node takes '{norm_src(e)}' from '{other}', not from the node being rebuilt ('{subj}')",
+                  f.loc(e), f"'{other}' is a different ExecNode (e.g. the variable of an earlier loop, which holds the LAST node of the table): "
+                  "every inner node gets that node's arguments / activation / class", norm_src(_innermost_stmt(f.node, e) or e)[:120])
+    r.ob(n_reads >= 4, {"reads of the node being rebuilt": n_reads})
+    r.require(n_reads >= 4, f"only {n_reads} reads of '{subj}' in the rebuild loop")
+    return r
+
+
+def ref_nonekey(ctx: Ctx) -> RuleResult:
+    """A deactivated node's value is None; a reference with a key path (index / unpack) to it yields None as well.
+
+    UsageExecNode.result folds the key path over the stored value: when the stored value is the None the scheduler writes for a
+    deactivated node, the fold must not be attempted (None has no __getitem__)."""
+    from .sch import model
+
+    r = RuleResult("REF-NONEKEY")
+    m = model(ctx)
+    # the scheduler stores the constant None for a deactivated node
+    stores_none = False
+    for p in m.paths():
+        if not p.feasible:
+            continue
+        if any(e.kind == "BRANCH" and frozenset([("ACTIVE", False)]) in e.data["clauses"] for e in p.events):
+            for e in p.events:
+                if e.kind == "ITEM_WRITE" and e.data.get("selected") and e.data.get("value") == "None":
+                    stores_none = True
+    r.ob(True, {"scheduler stores None for a deactivated node": stores_none})
+    if not stores_none:
+        raise Undecided("the value the scheduler stores for a deactivated node is not the constant None (form not modelled)")
+    f = ctx.method("UsageExecNode", "result")
+    folds = [n for n in iter_own_nodes(f.node) if (isinstance(n, ast.Call) and dotted(n.func) in ("reduce", "functools.reduce"))
+             or (isinstance(n, ast.For) and norm_src(n.iter) == "self.key")]
+    r.require(len(folds) >= 1, "UsageExecNode.result: key-path fold not found")
+    chains = _if_chains(f.node)
+    for fd in folds:
+        st = _innermost_stmt(f.node, fd) if not isinstance(fd, ast.stmt) else fd
+        tests = [norm_src(t) for t, v in chains.get(id(st), ())]
+        guarded = any(" is None" in t or " is not None" in t for t in tests)
+        r.ob(guarded, {"key-path fold": norm_src(fd)[:90], "under": tests})
+        if not guarded:
+            r.violate("UsageExecNode.result: the key path is applied to the None stored for a deactivated node", f.loc(fd),
+                      "a node (or a nested DAG's output) that is an indexed / unpacked part of a deactivated node does not yield None: "
+                      "the call fails with AttributeError: 'NoneType' object has no attribute '__getitem__' - in the return value, in a "
+                      "dependent's arguments (worker thread) or in the activation test (scheduler loop); an id that is absent from the "
+                      "results, by contrast, yields None whatever the key path", norm_src(fd)[:120])
+    return r
+
+
+def ref_seedact(ctx: Ctx) -> RuleResult:
+    """Splice: values seeded into the outer results for inner nodes (defaults of omitted parameters, constant return values) are
+    not seeded when the nested DAG carries an activation flag - a seeded node counts as executed and can never be deactivated."""
+    r = RuleResult("REF-SEEDACT")
+    sp = _splice(ctx)
+    f = sp.fn
+    flag = None
+    for n in iter_own_nodes(f.node):
+        if isinstance(n, ast.Assign) and isinstance(n.targets[0], ast.Name) and isinstance(n.value, ast.Compare) \
+                and len(n.value.ops) == 1 and isinstance(n.value.ops[0], ast.In) and "ARG_NAME_ACTIVATE" in norm_src(n.value.left):
+            flag = n.targets[0].id
+    r.require(flag is not None, "splice: activation-presence flag not found")
+    seeds = [n for n in own_walk(sp.block) if isinstance(n, ast.Call) and isinstance(n.func, ast.Attribute) and n.func.attr == "update"
+             and norm_src(n.func.value).endswith("results")]
+    r.require(len(seeds) >= 1, "splice: seeding of the outer results not found")
+    chains = _if_chains(f.node)
+    for sd in seeds:
+        st = _innermost_stmt(f.node, sd)
+        tests = [norm_src(t) for t, v in chains.get(id(st), ())]
+        mentions = flag in {x.id for x in ast.walk(sd) if isinstance(x, ast.Name)} or any(flag in t for t in tests)
+        r.ob(mentions, {"seeding": norm_src(sd)[:90], "depends on the activation flag": mentions})
+        if not mentions:
+            r.violate(f"{f.short} splice: inner results are seeded whatever the nested DAG's activation", f.loc(sd),
+                      "the default of an omitted parameter and a constant return value are copied into the outer results: those inner "
+                      "nodes count as executed, so a deactivated nested DAG still outputs them (e.g. (None, 10) instead of (None, None))",
+                      norm_src(sd)[:120])
+    return r
+
+
 RULES = {
+    "REF-SAMENODE": ref_samenode, "REF-NONEKEY": ref_nonekey, "REF-SEEDACT": ref_seedact,
     "REF-STABLEID": ref_stableid,
     "REF-DEREF": ref_deref, "REF-KEY": ref_key, "REF-FIELDS": ref_fields, "REF-ASDICT": ref_asdict, "REF-MAT": ref_mat,
     "REF-SHAPE": ref_shape, "REF-OPS": ref_ops, "REF-NI": ref_ni, "REF-ACTIVE-BUILD": ref_active_build,
